@@ -117,7 +117,7 @@ fn strings_upto(max_len: usize, shard: usize, nshards: usize, f: &mut dyn FnMut(
 
 fn str_case_strategy() -> BoxedStrategy<StrCase> {
     (
-        prop_oneof![3 => gens::text::unicode(64), 3 => gens::text::nasty()],
+        prop_oneof![3 => gens::text::unicode(64), 3 => gens::text::nasty(), 2 => gens::text::segmented()],
         prop_oneof![
             6 => gens::pick(&[Some('.'), Some('-'), Some('_')]),
             2 => gens::pick(&[Some('+'), Some('~'), Some(' '), Some('/'), Some(':')]),
